@@ -57,6 +57,12 @@ def build_case(cid, rng, selector, unimock=False, force_async=False, no_send=Fal
     rng.shuffle(opts)
     targs = t.args_text()
     L = tg.support_for(t.methods)
+    if rng.random() < 0.5:
+        # the real conversion traits are imported in the invoking scope (as they are wherever the user writes
+        # `impl Borrow<dyn Tr> for App`): method-call syntax in the generated delegation then sees their blanket impls too
+        L.append("#[allow(unused_imports)] use ::core::borrow::{Borrow as _, BorrowMut as _};")
+        L.append("#[allow(unused_imports)] use ::core::ops::{Deref as _, DerefMut as _};")
+        L.append("#[allow(unused_imports)] use ::core::convert::{AsMut as _, Into as _, From as _};")
     # supertraits that are themselves entraited: `Impl<T>: Sup` then does not follow from `T: Sup` alone
     sup = rng.choice([None, None, "ref", "self", "borrow"]) if not dyn else None
     if sup:
